@@ -6,7 +6,7 @@ import z3
 from pyvc import sym
 from pyvc.harness import Unit
 from pyvc import harness as _h
-from pyvc.sym import SI, SR, check, assume, explore
+from pyvc.sym import SB, SI, SR, check, assume, explore
 from checks import init_common as ic
 
 PROPERTY = "C08"
@@ -51,11 +51,107 @@ def run_flux(mutate=None):
 
 
 
+def run_device_scales(mutate=None):
+    """Device.tau0 / V0 / kappa / Lambda / conductivity on the pint model with a SYMBOLIC length-unit factor: the time and voltage scales a user multiplies
+    the dimensionless results with are tau0 = mu0 sigma lambda^2 in seconds and V0 = xi (K0 / d) / sigma in volts, stated in SI quantities of the film only
+    (sigma_SI = sigma_num / ell S/m, lambda_SI = lambda_num ell, ...): the same physical film described in another length unit has the same scales.  An
+    explicit conductivity argument (any units) takes precedence over the layer's; without any conductivity both refuse."""
+    from pyvc.models import pintmodel
+    LS, LD = ic.load(mutate)
+    Device = LD["Device"]
+
+    def body():
+        R = z3.Real
+        ureg = pintmodel.make_registry()
+        ell = ureg.user_unit("LEN", pintmodel.LENGTH, "ell")
+        ell2 = ureg.user_unit("LEN2", pintmodel.LENGTH, "ell_other")
+        LD.ns["ureg"] = ureg
+        xi, lam, d, sg = SR(R("xi_num")), SR(R("lambda_num")), SR(R("thickness_num")), SR(R("sigma_num"))
+        assume(xi > 0, lam > 0, d > 0, sg > 0)
+        layer = type("Layer", (), {})()
+        layer.coherence_length, layer.london_lambda, layer.thickness = xi, lam, d
+        given = bool(SB(z3.Bool("layer_has_a_conductivity")))
+        layer.conductivity = sg if given else None
+        dev = Device.__new__(Device)
+        dev.layer, dev._length_units, dev.mesh, dev.probe_points, dev.name = layer, "LEN", None, None, "d"
+        mu0, phi0, pi = ureg.mu0, ureg.phi0, SR(math.pi)
+        xi_si, lam_si, d_si = xi * ell, lam * ell, d * ell
+        K0_si = 4 * xi_si * (phi0 / (2 * pi * xi_si * xi_si)) / (mu0 * (lam_si * lam_si / d_si))
+
+        def si(q):
+            return q.to_base_units().magnitude
+        check("C08.scales.kappa_is_lambda_over_xi", sym.eq(dev.kappa, lam / xi))
+        L_ = dev.Lambda
+        check("C08.scales.Lambda_is_lambda_squared_over_thickness_in_SI", z3.And(sym.eq(si(L_), lam_si * lam_si / d_si), z3.BoolVal(L_.dims == pintmodel.LENGTH)))
+        arg = bool(SB(z3.Bool("conductivity_passed_explicitly")))
+        sg2 = SR(R("sigma_arg_num"))
+        assume(sg2 > 0)
+        kw = dict(conductivity=sg2 * ureg("siemens / LEN2")) if arg else {}
+        sigma_si = (sg2 / ell2) if arg else (sg / ell)
+        for nm, unit_dims in (("tau0", pintmodel._d(T=1)), ("V0", pintmodel._d(L=2, M=1, T=-3, I=-1))):
+            try:
+                q = getattr(dev, nm)(**kw)
+            except ValueError:
+                check(f"C08.scales.{nm}.refused_only_without_any_conductivity", z3.BoolVal(not given and not arg))
+                continue
+            check(f"C08.scales.{nm}.answered_only_with_a_conductivity", z3.BoolVal(given or arg))
+            want = mu0 * sigma_si * lam_si * lam_si if nm == "tau0" else xi_si * (K0_si / d_si) / sigma_si
+            check(f"C08.scales.{nm}.is_the_documented_scale_of_the_physical_film_in_SI", sym.eq(si(q), want))
+            check(f"C08.scales.{nm}.is_returned_in_{'seconds' if nm == 'tau0' else 'volts'}", z3.And(z3.BoolVal(q.dims == unit_dims), sym.eq(q.scale, 1), sym.eq(q.magnitude, want)))
+        if given:
+            c_ = dev.conductivity
+            check("C08.scales.conductivity_is_the_layers_number_in_siemens_per_length_unit", z3.And(sym.eq(si(c_), sg / ell), z3.BoolVal(c_.dims == pintmodel._d(L=-3, M=-1, T=3, I=2))))
+        else:
+            check("C08.scales.conductivity_is_the_layers_number_in_siemens_per_length_unit", z3.BoolVal(dev.conductivity is None))
+    obls, n = explore(body)
+    return dict(obls=obls, paths=n, sources=[LD.info()], consistent=sym.consistent())
+
+
+def native_scales():
+    """real pint: one physical film stated in um / nm / mm has the same tau0, V0, kappa, Lambda; values against a direct SI evaluation"""
+    import numpy as np
+    import tdgl
+    from tdgl.geometry import box
+    bad, n = [], 0
+    mu0 = 4e-7 * np.pi * (1 + 5.5e-10)      # CODATA 2018 value to 1e-9 relative
+    xi_m, lam_m, d_m, sigma = 0.3e-6, 1.2e-6, 0.05e-6, 2.5e6          # metres, S/m
+    ref = None
+    for unit, f in (("um", 1e-6), ("nm", 1e-9), ("mm", 1e-3)):
+        layer = tdgl.Layer(coherence_length=xi_m / f, london_lambda=lam_m / f, thickness=d_m / f, conductivity=sigma * f)
+        dev = tdgl.Device("d", layer=layer, film=tdgl.Polygon("film", points=box(4 * xi_m / f, 2 * xi_m / f)), length_units=unit)
+        got = dict(tau0=dev.tau0().to("s").magnitude, V0=dev.V0().to("V").magnitude, kappa=float(dev.kappa), Lambda=dev.Lambda.to("m").magnitude,
+                   tau0_arg=dev.tau0(conductivity=tdgl.ureg("5e6 S/m")).to("s").magnitude)
+        n += 1
+        Bc2 = 2.067833848e-15 / (2 * np.pi * xi_m ** 2)
+        K0 = 4 * xi_m * Bc2 / (mu0 * lam_m ** 2 / d_m)
+        want = dict(tau0=mu0 * sigma * lam_m ** 2, V0=xi_m * (K0 / d_m) / sigma, kappa=lam_m / xi_m, Lambda=lam_m ** 2 / d_m, tau0_arg=mu0 * 5e6 * lam_m ** 2)
+        for k, v in want.items():
+            if abs(got[k] - v) > 1e-6 * abs(v):
+                bad.append(dict(what=f"Device.{k} of a film stated in {unit} is not the documented scale of the physical film", got=float(got[k]), expected=float(v), length_units=unit))
+        if ref is None:
+            ref = got
+        else:
+            for k in got:
+                if abs(got[k] - ref[k]) > 1e-9 * abs(ref[k]):
+                    bad.append(dict(what=f"Device.{k} depends on the length unit the film is stated in", um=float(ref[k]), other=float(got[k]), length_units=unit))
+    layer = tdgl.Layer(coherence_length=0.3, london_lambda=1.2, thickness=0.05)
+    dev = tdgl.Device("d", layer=layer, film=tdgl.Polygon("film", points=box(1, 1)), length_units="um")
+    for nm in ("tau0", "V0"):
+        n += 1
+        try:
+            getattr(dev, nm)()
+            bad.append(dict(what=f"Device.{nm}() answered for a film without a conductivity"))
+        except ValueError:
+            pass
+    return bad, n
+
+
 def _bounded_quick():
     from checks import physics_native as pn
     b1, n1 = pn.units_cases(0, reduced=True)
     b2, n2 = pn.history_cases(0)
-    return b1 + b2, n1 + n2
+    b3, n3 = native_scales()
+    return b1 + b2 + b3, n1 + n2 + n3
 
 
 def units():
@@ -72,6 +168,7 @@ def units():
                  lambda m=None: __import__("checks.c18", fromlist=["x"]).run_device_transforms(m, prefixes=("C08.",)), props=["C08", "C18"], timeout=300),
             Unit("Device.make_mesh", "tdgl.device.device:Device.make_mesh / _create_dimensionless_mesh / points / edge_lengths / areas",
                  lambda m=None: __import__("checks.mesh_common", fromlist=["x"]).run_make_mesh(m, prefixes=("C08.",)), props=["C08", "C07"], timeout=300),
+            Unit("Device.tau0 / V0 / kappa / Lambda", "tdgl.device.device:Device.tau0, Device.V0, Device.kappa, Device.Lambda, Device.conductivity", run_device_scales, props=["C08"], timeout=300),
             Unit("flux per triangle", "lemma over the formula of tdgl.em:uniform_Bz_vector_potential", run_flux, props=["C08", "C04"], timeout=300),
             _h.bounded_unit("physical outputs across unit systems [bounded]", "tdgl.solve / Solution (real runs on one shared mesh)", "C08", _bounded_quick, "same_physical_outputs_in_different_unit_systems[um/mm/nm, static and ramped field]", timeout=900)]
 
@@ -84,6 +181,9 @@ def replay_scope(unit, obl):
 def replay(unit, obl):
     import tdgl
     from checks import physics_native as pn
+    if unit.startswith("Device.tau0"):
+        bad, n = native_scales()
+        return dict(confirmed=bool(bad), failing_input=bad[0] if bad else None, n_failing=len(bad), evaluations=n, tdgl_file=tdgl.__file__)
     if unit.startswith("Device.rotate"):
         from checks import c18
         bad, n = c18.native(0, 3)
@@ -113,6 +213,10 @@ MUTANTS = [
     dict(name="screening scale in 1/um", edits=[(S_, "A_scale = (ureg(\"mu_0\") / (4 * np.pi) * K0 / A0).to(1 / length_units)", "A_scale = (ureg(\"mu_0\") / (4 * np.pi) * K0 / A0).to_base_units()")]),
     dict(name="A_scale misses the length unit in the numerator", edits=[(S_, "(ureg(field_units) * length_units / (Bc2 * xi * length_units))", "(ureg(field_units) * ureg(\"m\") / (Bc2 * xi * length_units))")]),
     dict(name="field_at_position forgets the device length units", edits=[("tdgl.solution.solution", "                length_units=device.length_units,\n                current_units=self.current_units,\n                vector=vector,", "                current_units=self.current_units,\n                vector=vector,")]),
+    dict(name="tau0 with Lambda instead of lambda^2", units=["Device.tau0 / V0 / kappa / Lambda"], edits=[(D_, "        return (ureg(\"mu_0\") * conductivity * self.london_lambda**2).to(\"seconds\")", "        return (ureg(\"mu_0\") * conductivity * self.Lambda * self.london_lambda).to(\"seconds\")")], expect="killed"),
+    dict(name="V0 without the film thickness", units=["Device.tau0 / V0 / kappa / Lambda"], edits=[(D_, "        J0 = self.K0 / self.thickness", "        J0 = self.K0 / ureg(self.length_units)")]),
+    dict(name="conductivity per metre whatever the length unit", units=["Device.tau0 / V0 / kappa / Lambda"], edits=[(D_, "        return self.layer.conductivity * ureg(f\"siemens / {self.length_units}\")", "        return self.layer.conductivity * ureg(\"siemens / m\")")]),
+    dict(name="explicit conductivity ignored when the layer has one", units=["Device.tau0 / V0 / kappa / Lambda"], edits=[(D_, "        if conductivity is None:\n            conductivity = self.conductivity\n        if conductivity is None:\n            raise ValueError(\n                \"The time scale tau0", "        if self.conductivity is not None:\n            conductivity = self.conductivity\n        if conductivity is None:\n            raise ValueError(\n                \"The time scale tau0")]),
     dict(name="Bc2 with xi instead of xi^2", edits=[(D_, "(2 * np.pi * self.coherence_length**2)", "(2 * np.pi * self.coherence_length)")]),
     dict(name="K0 misses the factor 4", edits=[(D_, "K0 = 4 * self.coherence_length * self.Bc2 / (ureg(\"mu_0\") * self.Lambda)", "K0 = self.coherence_length * self.Bc2 / (ureg(\"mu_0\") * self.Lambda)")]),
 ] + __import__("checks.field_common", fromlist=["x"]).MUTANTS + [
